@@ -72,6 +72,9 @@ def categorise(world, rows, profile):
             live_missing = True
         else:
             live_missing = False
+        if any(f.get(c) is None for c in ("results_dem", "results_gop")):
+            # a party count that no requested estimand needs has not arrived: unknown (NaN), and of no consequence
+            f = dict(f, **{c: (float("nan") if f.get(c) is None else f[c]) for c in ("results_dem", "results_gop")})
         fips = b["geographic_unit_fips"]
         data_fips.add(fips)
         bw = (b["baseline_dem"] + b["baseline_gop"]) if wm == "twoparty" else b["baseline_turnout"]
